@@ -8,6 +8,7 @@ import GridVerif.Props.C06.CallGen
 import GridVerif.Props.C06.Hirshfeld
 import GridVerif.Props.C06.CovRadii
 import GridVerif.Props.C06.Window
+import GridVerif.Props.C06.Clauses
 
 #print axioms GridVerif.C06.switch_maps_unit
 #print axioms GridVerif.C06.switch_lt_one
@@ -69,3 +70,7 @@ import GridVerif.Props.C06.Window
 #print axioms GridVerif.C06.cov_radii_positive_other
 #print axioms GridVerif.C06.alpha_raw_closed_form
 #print axioms GridVerif.C06.alpha_clip_window
+#print axioms GridVerif.C06.compute_atom_weight_pointwise
+#print axioms GridVerif.C06.compute_atom_weight_origin
+#print axioms GridVerif.C06.compute_atom_weight_split
+#print axioms GridVerif.C06.compute_weights_after_empty_segment
